@@ -153,11 +153,10 @@ pub proof fn lemma_visited_next_tx(txx: Seq<Transaction>, j: int)
 }
 
 // ---- apply_tx_batch_impl: envelope, acceptance conditions, result (C02, C03, C04, C05, C13, C18, C19)
-/// per-transaction envelopes the callee contracts need (u128 ranges; the domains of the known findings F-C04-index, F-C04-cache, F-C09-melpow)
+/// per-transaction envelopes the callee contracts need (u128 range of the input values; the domain of the known finding F-C09-melpow).
+/// The domains of F-C04-index / F-C04-cache are NOT assumed here any more: what depends on them is stated under c04_domain in tx_checked
 pub open spec fn tx_env<C: ContentAddrStore>(s: UnsealedState<C>, rel: Map<CoinID, CoinDataHeight>, tx: Transaction) -> bool {
     &&& fsum(tx.inputs@, in_value(rel)) <= u128::MAX
-    &&& tx.inputs@.len() <= 256
-    &&& forall|a: int, b: int| 0 <= a < b < tx.inputs@.len() && rel.contains_key(tx.inputs@[a]) && rel.contains_key(tx.inputs@[b]) ==> rel[tx.inputs@[a]].coin_data.covhash != rel[tx.inputs@[b]].coin_data.covhash
     &&& dosc_pow_total(s, rel, tx)
 }
 pub open spec fn batch_env<C: ContentAddrStore>(s: UnsealedState<C>, txx: Seq<Transaction>) -> bool {
@@ -169,7 +168,8 @@ pub open spec fn batch_env<C: ContentAddrStore>(s: UnsealedState<C>, txx: Seq<Tr
 pub open spec fn tx_checked<C: ContentAddrStore>(s: UnsealedState<C>, rel: Map<CoinID, CoinDataHeight>, ns: Map<TxHash, StakeDoc>, tx: Transaction) -> bool {
     &&& forall|i: int| 0 <= i < tx.inputs@.len() ==> rel.contains_key(#[trigger] tx.inputs@[i])
     &&& !lock_legacy(s.network, s.height) ==> forall|i: int| 0 <= i < tx.inputs@.len() ==> !ns.contains_key((#[trigger] tx.inputs@[i]).txhash) && !s.stakes@.contains_key(tx.inputs@[i].txhash)
-    &&& forall|i: int| 0 <= i < tx.inputs@.len() ==> script_approves(spec_covenants_map(tx), rel[tx.inputs@[i]].coin_data.covhash, tx, #[trigger] env_of(tx, rel, i, spec_last_header(s)))
+    &&& forall|i: int| 0 <= i < tx.inputs@.len() && first_occ(tx, rel, i) ==> script_approves(spec_covenants_map(tx), rel[tx.inputs@[i]].coin_data.covhash, tx, #[trigger] env_of(tx, rel, i, spec_last_header(s)))
+    &&& c04_domain(tx, rel) ==> forall|i: int| 0 <= i < tx.inputs@.len() ==> script_approves(spec_covenants_map(tx), rel[tx.inputs@[i]].coin_data.covhash, tx, #[trigger] env_of(tx, rel, i, spec_last_header(s)))
     &&& balanced(tx.kind, in_sums(tx.inputs@, rel, tx.inputs@.len() as int), spec_total_outputs(tx))
 }
 /// what every accepted transaction of the batch satisfies: well-formed, checked as above, and paying at least its minimum fee
@@ -379,7 +379,9 @@ pub proof fn lemma_marker_kept<C: ContentAddrStore>(s: UnsealedState<C>, txx: Se
         assert(tx_accepted(s, rel, ns, txx[t]));
         assert(rel.contains_key(m) && rel[m] == c0[m]);
         let a = rel[m].coin_data.covhash;
-        assert(script_approves(spec_covenants_map(txx[t]), a, txx[t], env_of(txx[t], rel, k, spec_last_header(s))));
+        lemma_first_occ_exists(txx[t], rel, k);
+        let k0 = choose|k0: int| 0 <= k0 <= k && rel[txx[t].inputs@[k0]].coin_data.covhash == rel[txx[t].inputs@[k]].coin_data.covhash && #[trigger] first_occ(txx[t], rel, k0);
+        assert(script_approves(spec_covenants_map(txx[t]), a, txx[t], env_of(txx[t], rel, k0, spec_last_header(s))));
         assert(spec_covenants_map(txx[t]).contains_key(a));
         assert(false);
     }
